@@ -143,7 +143,7 @@ func unmarshalList(dec *msgpack.Decoder, ety cty.Type, path cty.Path) (cty.Value
 		return cty.ListValEmpty(ety), nil
 	}
 
-	vals := make([]cty.Value, 0, length)
+	vals := make([]cty.Value, 0, preallocLen(length))
 	path = append(path, nil)
 	for i := 0; i < length; i++ {
 		path[len(path)-1] = cty.IndexStep{
@@ -178,7 +178,7 @@ func unmarshalSet(dec *msgpack.Decoder, ety cty.Type, path cty.Path) (cty.Value,
 		return cty.SetValEmpty(ety), nil
 	}
 
-	vals := make([]cty.Value, 0, length)
+	vals := make([]cty.Value, 0, preallocLen(length))
 	path = append(path, nil)
 	for i := 0; i < length; i++ {
 		path[len(path)-1] = cty.IndexStep{
@@ -213,7 +213,7 @@ func unmarshalMap(dec *msgpack.Decoder, ety cty.Type, path cty.Path) (cty.Value,
 		return cty.MapValEmpty(ety), nil
 	}
 
-	vals := make(map[string]cty.Value, length)
+	vals := make(map[string]cty.Value, preallocLen(length))
 	path = append(path, nil)
 	for i := 0; i < length; i++ {
 		key, err := dec.DecodeString()
@@ -266,7 +266,7 @@ func unmarshalTuple(dec *msgpack.Decoder, etys []cty.Type, path cty.Path) (cty.V
 		return cty.DynamicVal, path.NewErrorf("a tuple of length %d is required", len(etys))
 	}
 
-	vals := make([]cty.Value, 0, length)
+	vals := make([]cty.Value, 0, preallocLen(length))
 	path = append(path, nil)
 	for i := 0; i < length; i++ {
 		path[len(path)-1] = cty.IndexStep{
@@ -301,7 +301,7 @@ func unmarshalObject(dec *msgpack.Decoder, atys map[string]cty.Type, path cty.Pa
 			len(atys), length)
 	}
 
-	vals := make(map[string]cty.Value, length)
+	vals := make(map[string]cty.Value, preallocLen(length))
 	path = append(path, nil)
 	for i := 0; i < length; i++ {
 		key, err := dec.DecodeString()
@@ -385,4 +385,14 @@ func unifyDynamicElements(vals []cty.Value, path cty.Path) ([]cty.Value, error) 
 		}
 	}
 	return ret, nil
+}
+
+// preallocLen limits how much space we reserve up front on the strength of
+// a length header alone, since the input might be truncated or hostile.
+func preallocLen(length int) int {
+	const max = 1024
+	if length > max {
+		return max
+	}
+	return length
 }
